@@ -155,6 +155,34 @@ def is_sorted_items_copy(res, call, fn, mod):
     return info[0] if info else None
 
 
+def _norm(e):
+    return ast.unparse(e) if e is not None else ""
+
+
+def inplace_rekey(loop):
+    """`for k in sorted(D): D[k] = D.pop(k)` - every key is moved to the end in ascending order: the same object ends up
+    with its keys sorted.  Returns the expression D, else None."""
+    if not (isinstance(loop, ast.For) and isinstance(loop.target, ast.Name) and not loop.orelse and len(loop.body) == 1):
+        return None
+    it = loop.iter
+    if not (isinstance(it, ast.Call) and isinstance(it.func, ast.Name) and it.func.id == "sorted" and len(it.args) == 1 and not it.keywords):
+        return None
+    d = it.args[0]
+    while isinstance(d, ast.Call) and ((isinstance(d.func, ast.Name) and d.func.id in ("list", "tuple") and len(d.args) == 1) or
+                                        (isinstance(d.func, ast.Attribute) and d.func.attr == "keys" and not d.args)):
+        d = d.args[0] if isinstance(d.func, ast.Name) else d.func.value
+    st = loop.body[0]
+    k = loop.target.id
+    if not (isinstance(st, ast.Assign) and len(st.targets) == 1 and isinstance(st.targets[0], ast.Subscript) and _norm(st.targets[0].value) == _norm(d)
+            and isinstance(st.targets[0].slice, ast.Name) and st.targets[0].slice.id == k):
+        return None
+    v = st.value
+    if isinstance(v, ast.Call) and isinstance(v.func, ast.Attribute) and v.func.attr == "pop" and _norm(v.func.value) == _norm(d) and len(v.args) == 1 \
+            and isinstance(v.args[0], ast.Name) and v.args[0].id == k:
+        return d
+    return None
+
+
 class PointsTo:
     def __init__(self, prog, res, cg):
         self.prog = prog
@@ -283,6 +311,21 @@ class PointsTo:
                     ks |= {k for (oo, k) in self.field if oo is so}
         return ks
 
+    def const_keys(self, key, fn):
+        """[str] if the key expression is a string constant, or a local that iterates over a literal tuple / list of string
+        constants (`for key in ("url-list", "httpseeds")`); None otherwise."""
+        ck = const_str(key)
+        if ck is not None:
+            return [ck]
+        if isinstance(key, ast.Name) and fn is not None:
+            bl = self.res.bindings(fn).get(key.id, [])
+            if bl and all(w == "iter" and isinstance(p_, (ast.Tuple, ast.List)) and p_.elts and all(const_str(x) is not None for x in p_.elts) for w, p_ in bl):
+                out = []
+                for w, p_ in bl:
+                    out += [const_str(x) for x in p_.elts]
+                return out
+        return None
+
     # ------------------------------------------------------------------ expression evaluation
     def pts(self, e, fn, mod=None):
         mod = mod or (fn.module if fn else None)
@@ -330,12 +373,13 @@ class PointsTo:
             out = set()
             if isinstance(e.slice, ast.Slice):
                 return self.pts(e.value, fn, mod)
-            ck = const_str(e.slice)
+            cks = self.const_keys(e.slice, fn)
             for o in self.pts(e.value, fn, mod):
                 if o.kind == "list":
                     out |= self.getfield(o, ELEM)
-                elif ck is not None:
-                    out |= self.getfield(o, ck)
+                elif cks is not None:
+                    for ck in cks:
+                        out |= self.getfield(o, ck)
                 else:
                     out |= self.getfield(o, None)
             return out
@@ -466,9 +510,13 @@ class PointsTo:
             for key in self._attr_key(target, fn, mod):
                 self._add(self.var, key, value_objs)
         elif isinstance(target, ast.Subscript):
-            ck = const_str(target.slice) if not isinstance(target.slice, ast.Slice) else None
+            cks = self.const_keys(target.slice, fn) if not isinstance(target.slice, ast.Slice) else None
             for o in self.pts(target.value, fn, mod):
-                self._add(self.field, (o, ELEM if o.kind == "list" else (ck if ck is not None else STAR)), value_objs)
+                if o.kind == "list":
+                    self._add(self.field, (o, ELEM), value_objs)
+                else:
+                    for ck in (cks if cks is not None else [STAR]):
+                        self._add(self.field, (o, ck), value_objs)
             self._insertion(node, fn, target.value, None if isinstance(target.slice, ast.Slice) else target.slice, value_expr, "store")
         elif isinstance(target, (ast.Tuple, ast.List)):
             for t in target.elts:
@@ -481,6 +529,18 @@ class PointsTo:
         self.insertions.append(Insertion(node, fn, base, key, value, how))
 
     def _stmt(self, n, fn, mod):
+        if isinstance(n, ast.Assign) and isinstance(self.prog.parent.get(n), ast.For) and inplace_rekey(self.prog.parent.get(n)) is not None:
+            # d[k] = d.pop(k) for k in sorted(d): moves every key to the end - no new contents, no new edges
+            loop = self.prog.parent.get(n)
+            if id(n) not in self._ins_seen:
+                self._ins_seen.add(id(n))
+                self.insertions.append(Insertion(n, fn, inplace_rekey(loop), None, None, "rekey"))
+            return
+        if isinstance(n, ast.Call) and isinstance(n.func, ast.Attribute) and n.func.attr == "pop":
+            st = self.prog.enclosing_stmt(n)
+            lp = self.prog.parent.get(st) if st is not None else None
+            if isinstance(lp, ast.For) and inplace_rekey(lp) is not None:
+                return
         if isinstance(n, ast.Assign):
             for t in n.targets:
                 if isinstance(t, (ast.Tuple, ast.List)):
